@@ -250,3 +250,21 @@ for _r in (True, False):
                 tail_unit(ip, r, p, True)
             return u
         _mk()
+
+
+@unit("C20.generate_batch_indices", "C20", [f"{OPT}::_generate_batch_indices"], assumptions=["arrays opaque: permutation / slicing / array_split uninterpreted; A-RNG permutation(key, n) is a uniformly random permutation of 0..n-1"])
+def u_batches(ip):
+    """the batch indices are the first floor(n / batch_size) * batch_size entries of ONE random permutation of 0..n-1 drawn from the
+    given key, split into floor(n / batch_size) equal parts: disjoint batches of exactly batch_size distinct observations."""
+    c = ip.ctx
+    n, bs = c.fresh("n", Int), c.fresh("batch_size", Int)
+    c.assume(And(bs >= 1, n >= bs))
+    key = z3.Const("key", U)
+    ip.models["jax.numpy.array_split"] = lambda ip_, x, k: ip_.uf("array_split", ip_.to_U(x), to_sort(k, Int))
+    ip.models["jax.numpy.asarray"] = lambda ip_, x, *a, **k: x
+    r = ip.call(ip.repo(f"{OPT}::_generate_batch_indices"), [], {"key": key, "n": n, "batch_size": bs})
+    nfull = n / bs  # z3 integer division, batch_size > 0
+    perm = ip.uf("permutation", key, n)
+    sub = ip.uf("getslice", perm, ip.to_U(("slice", 0, nfull * bs, None)))
+    c.oblige("first_full_batches_of_one_permutation", ip.to_U(r) == ip.uf("array_split", sub, nfull), structural=True)
+    c.oblige("key_consumed_once", c.ghost.get("keys_used") is not None and len(c.ghost["keys_used"]) == 1 and not c.ghost.get("key_reuse"))
